@@ -74,5 +74,8 @@ pub use serde_json;
 
 pub use rscel_macro as macros;
 
+#[cfg(rscel_verif)]
+pub mod verif;
+
 #[cfg(test)]
 mod tests;
